@@ -122,43 +122,53 @@ Proof.
     apply selection_ok. apply Forall_app; auto.
 Qed.
 
-(* island histories: steps, fitness resets (migration), best-individual / hall-of-fame reads *)
-Definition island_inv (st : list ind * nat) : Prop :=
-  Forall fresh (fst st) /\ Forall popok (fst st) /\ (snd st <> 0 -> Forall valid (fst st)).
+(* island histories: steps, fitness resets, migration arrivals, regeneration, best-individual / hall-of-fame reads *)
+Definition island_inv (st : list ind * nat) : Prop := Forall fresh (fst st) /\ Forall popok (fst st).
+(* what may arrive by migration: individuals of islands with the same fitness function - no stored value, or the true one *)
+Definition iop_ok (o : iop G F) : Prop := match o with IMigrate _ _ _ inc => Forall popok inc | _ => True end.
 
-Lemma island_op_ok a st o : island_inv st ->
+Lemma forallb_flag_valid pop : Forall fresh pop -> forallb (flag G F) pop = true -> Forall valid pop.
+Proof.
+  intros Hf Hb. rewrite forallb_forall in Hb. rewrite Forall_forall in *. intros i Hi. apply (Hf i Hi). apply Hb. exact Hi.
+Qed.
+Lemma unflag_ok l : Forall popok l -> Forall fresh (map (unflag G F) l) /\ Forall popok (map (unflag G F) l).
+Proof.
+  intros H. split; rewrite Forall_forall in *; intros i Hi; apply in_map_iff in Hi as [j [<- Hj]].
+  - unfold fresh, unflag. simpl. discriminate.
+  - destruct (H j Hj) as [E|E]; [left; exact E|right; exact E].
+Qed.
+
+Lemma island_op_ok a st o : island_inv st -> iop_ok o ->
   (exists st', island_op G F fit opt feq g0 a st o = Ok st' /\ island_inv st')
   \/ island_op G F fit opt feq g0 a st o = BadOracle.
 Proof.
-  destruct st as [pop age]. intros (Hf & Hp & Hv). simpl in *. destruct o as [specs chosen| |]; simpl.
+  destruct st as [pop age]. intros (Hf & Hp) Ho. simpl in *. destruct o as [specs chosen| | |gs|keep inc]; simpl.
   - destruct (step_ok a pop specs chosen Hf Hp) as [(next & E & Hn)|E]; rewrite E; auto.
-    left. eexists. split; [reflexivity|]. repeat split; simpl.
+    left. eexists. split; [reflexivity|]. split; simpl.
     + eapply Forall_impl; [|exact Hn]. intros i [H _] _. exact H.
     + apply evaluated_popok; auto.
-    + intros _. apply evaluated_valid; auto.
-  - left. eexists. split; [reflexivity|]. repeat split; simpl.
-    + rewrite Forall_forall. intros i Hi. apply in_map_iff in Hi as [j [<- _]]. unfold fresh. simpl. discriminate.
-    + rewrite Forall_forall in *. intros i Hi. apply in_map_iff in Hi as [j [<- Hj]].
-      destruct (Hp j Hj) as [H|H]; [left; exact H|right; exact H].
-    + intros Ha. specialize (Hv Ha). rewrite Forall_forall in *. intros i Hi.
-      apply in_map_iff in Hi as [j [<- Hj]]. exact (Hv j Hj).
-  - destruct age as [|age].
+  - left. eexists. split; [reflexivity|]. apply (unflag_ok pop Hp).
+  - destruct (eval_due G F pop age) eqn:Ed.
     + pose proof (evaluate_evaluated pop Hf) as He.
-      rewrite read_all_valid by (apply evaluated_valid; auto). left. eexists. split; [reflexivity|].
-      repeat split; simpl.
+      rewrite read_all_valid by (apply evaluated_valid; auto). left. eexists. split; [reflexivity|]. split; simpl.
       * eapply Forall_impl; [|exact He]. intros i [H _] _. exact H.
       * apply evaluated_popok; auto.
-      * intros C. congruence.
-    + rewrite read_all_valid by (apply Hv; discriminate). left. eexists. split; [reflexivity|].
-      repeat split; auto.
+    + unfold eval_due in Ed. apply orb_false_iff in Ed as [_ Ed]. apply negb_false_iff in Ed.
+      rewrite read_all_valid by (apply forallb_flag_valid; auto). left. eexists. split; [reflexivity|]. split; auto.
+  - left. eexists. split; [reflexivity|]. split; simpl; rewrite Forall_forall; intros i Hi; apply in_map_iff in Hi as [g [<- _]].
+    + unfold fresh. simpl. discriminate.
+    + left. reflexivity.
+  - destruct (forallb (fun k => Nat.ltb k (length pop)) keep); [|right; reflexivity].
+    left. eexists. split; [reflexivity|]. apply unflag_ok. apply Forall_app. split; [|exact Ho].
+    rewrite Forall_forall. intros i Hi. apply in_map_iff in Hi as [k [<- _]]. apply nth_popok. exact Hp.
 Qed.
 
-Theorem island_run_ok a : forall ops st, island_inv st ->
+Theorem island_run_ok a : forall ops st, island_inv st -> Forall iop_ok ops ->
   (exists st', island_run G F fit opt feq g0 a st ops = Ok st' /\ island_inv st')
   \/ island_run G F fit opt feq g0 a st ops = BadOracle.
 Proof.
-  induction ops as [|o r IH]; intros st Hi; simpl; [left; eauto|].
-  destruct (island_op_ok a st o Hi) as [(st' & E & Hi')|E]; rewrite E; auto.
+  induction ops as [|o r IH]; intros st Hi Ho; simpl; [left; eauto|]. inversion Ho as [|? ? Ho1 Hor]; subst.
+  destruct (island_op_ok a st o Hi Ho1) as [(st' & E & Hi')|E]; rewrite E; auto.
 Qed.
 
 End P.
